@@ -176,6 +176,8 @@ impl LangInterpreter for English {
             })
             .collect();
         for (j, &i) in significant_tokens_indices.iter().enumerate() {
+            #[cfg(feature = "verif-hooks")]
+            crate::verif::yield_point(3);
             if tokens[i].text_lowercase() == "o" {
                 if j > 0
                     && self
